@@ -35,7 +35,8 @@ def parseEnv (kv : KV) : Env × Cfg :=
      createAddr := (listOf (kv.get "ca")).filterMap (fun e =>
        match e.splitOn ":" with | [n, a] => some (natOf n, a) | _ => none),
      erc20Denom := (listOf (kv.get "ed")).filterMap (fun e =>
-       match e.splitOn ":" with | [a, d] => some (a, unesc d) | _ => none) },
+       match e.splitOn ":" with | [a, d] => some (a, unesc d) | _ => none),
+     macc := listOf (kv.get "macc") },
    { modAddr := kv.get "mod", zero := kv.get "zero" })
 
 def ownerOf (s : String) : Owner := if s == "m" then .module else if s == "e" then .external else .unspecified
@@ -273,7 +274,7 @@ def devClass (d : String) : String :=
   match (d.splitOn ":").getD 1 "" with
   | "err" | "revert" | "revertmoved" | "gas" => "fail"
   | "bal+1" | "bal-1" | "balnil" | "balbad" => "bal"
-  | "amt+1" | "amt-1" => "amt"
+  | "amt+1" | "amt-1" | "amtx2" | "neg" => "amt"
   | "false" | "falsemoved" | "retempty" | "retbad" | "ret2" | "qnil" => "ret"
   | "approval" | "approvalfirst" | "approval1" | "approval4" | "notopics" | "otherlog" => "log"
   | k => k
